@@ -116,7 +116,10 @@ TEXT = {
     "C13": {
         "level": "Kernel-checked for all status vectors, peer sets, advertised sets and ALL shuffle outcomes (any permutation of the candidate list): a pick is "
                  "eligible and of minimal availability among eligible pieces (T1); none is picked iff nothing is eligible (T2); END_GAME_LIMIT = 10 from the "
-                 "generated constant. The implementation's random answers (8 per state) are checked for membership in the proved admissible set.",
+                 "generated constant. The implementation's random answers (8 per state) are checked for membership in the proved admissible set. "
+                 "These theorems cover choose_piece_index, through which every pick goes except the one of the Have path (Peer::handle_have), for which "
+                 "the property is REFUTED (have_path_pick_not_rarest, kernel-evaluated witness; recorded known finding C13-have-path-pick-ignores-rarity); "
+                 "every pick of the manager histories, the Have path included, is judged by the same `admissible`.",
         "note": KERNEL + "the model's own insertion sort stands for slice::sort_by (only sortedness+permutation are used in the proof); shuffle = arbitrary permutation.",
         "technique": "Lean 4 proof (decision logic over all permutations; sortedness + permutation lemmas) + admissibility check of the implementation's answers",
     },
@@ -127,11 +130,14 @@ TEXT = {
                  "than a slot holder stays choked, uninterested peers are choked, for any tie order (T2); the broadcast am_choked_map has an entry exactly for "
                  "the peers whose flag changed, with the new value (T3); the timer handler (round counter, wait-until-every-peer-reported-rates gate, rate "
                  "selection by seeder state, optimistic candidate) is either no change or an admissible rotation, so T1/T2 hold at every tick "
-                 "(T1_tick_keeps_slot_bounds, T2_tick_postcondition). Tied to the real Session by command histories incl. real timer ticks, compared "
-                 "after every operation.",
+                 "(T1_tick_keeps_slot_bounds, T2_tick_postcondition); on the connection task's side every own-state broadcast is put on the wire as exactly "
+                 "the matching Choke/Unchoke/nothing, for every script (C14_trace, monitor P14); the measured rate is, from the second statistics interval "
+                 "on, the mean of the bytes moved in the last two intervals, the first interval reports nothing (T4, statistics model, below 2^32 bytes per "
+                 "queue). Tied to the real Session by command histories incl. real timer ticks with rates delivered as SyncStats commands, compared "
+                 "after every operation; to the real connection task by broadcast scripts and by statistics scripts through its own timer handler.",
         "note": KERNEL + "modelled: HashMap iteration order = arbitrary permutation (the rotation theorem quantifies over every rate-sorted order); "
                 "assumed: broadcast delivery to every connection task (channel capacity), see DESIGN.md.",
-        "technique": "Lean 4 proof (invariant by induction over operation histories + loop lemmas) + differential correspondence on command histories",
+        "technique": "Lean 4 proof (invariant by induction over operation histories + loop lemmas; trace monitor proved sound for all scripts; interval invariant of the statistics queue) + differential correspondence on command histories, task scripts and statistics scripts",
     },
     "C01": {
         "level": "Kernel-checked for EVERY script of one connection task - frames of any kind (corrupt, duplicate, overlapping, unrequested, truncated "
